@@ -92,7 +92,9 @@ def known_guard(an, fs):
         types = m.get("types") or [m.get("type")]
         site = an["site"].split("[")[0]
         if site in m.get("sites", []) and an["type"] in types:
-            return f
+            subs = (m.get("subs") or {}).get(an["type"])
+            if subs is None or an.get("sub", "") in subs:
+                return f
     return None
 
 
